@@ -5,6 +5,7 @@ import (
 	"context"
 	"errors"
 	"fmt"
+	"io"
 	"math/rand"
 	"strings"
 	"sync"
@@ -45,6 +46,9 @@ type c10Case struct {
 	CloseAt  int    `json:"close_after_ops"`
 	WaitToo  bool   `json:"a_client_calls_wait_concurrently"`
 	DelHeavy bool   `json:"writers_alternate_set_and_delete_of_resident_keys"`
+	// the stall lasts for more than a maintenance period before Close is called, so that a timer tick is already
+	// waiting for the policy lock when the cache is closed
+	LongStall bool `json:"stalled_for_more_than_a_tick_before_close,omitempty"`
 }
 
 func maxGoroutineID() int64 {
@@ -177,6 +181,10 @@ func c10Scenario(r *Run, idx int, cs c10Case) {
 			r.Inconclusive(1) // the queue never filled; the scenario still runs, as an unstalled one
 		}
 		r.CountMax("max_writers_parked_on_full_queue_at_close", int64(cs.Writers))
+		if cs.LongStall {
+			time.Sleep(1300 * time.Millisecond)
+			r.Count("scenarios_with_a_tick_pending_at_close", 1)
+		}
 	} else {
 		// bounded: if the clients stop making progress for a minute the cache is closed anyway and the
 		// goroutine check below says where they are
@@ -319,6 +327,61 @@ func c10Scenario(r *Run, idx int, cs c10Case) {
 		case <-pd:
 		case <-time.After(20 * time.Second):
 			r.Inconclusive(1)
+		}
+	}
+
+	// ---- calls that need the policy lock must return after Close as well: a second Close, the size view, a save
+	if closeReturned && terminated {
+		var cur atomic.Value
+		cur.Store("")
+		var probeID atomic.Int64
+		lockCalls := make(chan struct{})
+		go func() {
+			probeID.Store(goid())
+			for _, c := range []struct {
+				name string
+				f    func()
+			}{{"EstimatedSize", func() { _ = a.store().EstimatedSize() }}, {"Stats", func() { _ = a.store().Stats() }}, {"SaveCache", func() { _ = a.save(0, io.Discard) }},
+				{"Close-again", func() { a.closeAPI() }}, {"Len", func() { _ = a.length() }}} {
+				cur.Store(c.name)
+				c.f()
+			}
+			close(lockCalls)
+		}()
+		returned := false
+		for evals := 0; evals < 100 && !returned; evals++ {
+			select {
+			case <-lockCalls:
+				returned = true
+				continue
+			case <-time.After(20 * time.Millisecond):
+			}
+			gs, all := dumpPair(150 * time.Millisecond)
+			select {
+			case <-lockCalls:
+				returned = true
+				continue
+			default:
+			}
+			g, stable := gs[probeID.Load()]
+			if !stable || !(strings.HasPrefix(g.State, "sync.") || g.State == "semacquire") || g.topTheineFrame() == "" {
+				continue
+			}
+			// parked on a lock inside the cache: is anybody left who could hold it?
+			others := 0
+			for id, o := range all {
+				if id > hiWater && id != probeID.Load() && strings.Contains(o.Text, theineFrame) && !strings.Contains(o.Text, "main.c10Scenario") {
+					others++
+				}
+			}
+			if others == 0 {
+				name := cur.Load().(string)
+				fail("call-never-returns/"+name+"/after-close/lock-held-by-nobody", fmt.Sprintf("%s called after Close had returned is parked on a lock inside the cache (%s [%s]) in two dumps 150 ms apart, and no other goroutine with a frame of the cache exists that could release it", name, g.topTheineFrame(), g.State))
+				break
+			}
+		}
+		if returned {
+			r.Count("post_close_lock_calls_returned", 1)
 		}
 	}
 
@@ -540,6 +603,7 @@ func runC10(r *Run) {
 			}
 		}
 		cases = append(cases, c10Case{Kind: kind, Writers: 0, Readers: 8, CloseAt: 5000})
+		cases = append(cases, c10Case{Kind: kind, Writers: 4, Readers: 2, Stall: true, LongStall: true, WaitToo: kind == "plain"})
 	}
 	for ki, kind := range anyKinds {
 		if ki%r.NShards == r.Shard {
